@@ -27,14 +27,22 @@ abbrev URL := Request                         -- `r.URL`: only RawQuery is consu
 abbrev Values := List (Bytes × List Bytes)    -- url.Values = map[string][]string
 abbrev Header := List (Bytes × List Bytes)
 
+/-- `http.Cookie`, as far as the accessors use it: name and value (every other attribute is left at its zero value by
+`Context.SetCookie`'s callers in the model — `Cookie.String()` then prints `name=value` only) -/
 structure Cookie where
-  value : Bytes
+  name  : Bytes := []
+  value : Bytes := []
   deriving Inhabited
 
 def Request_URL (r : Request) : URL := r
 def Request_Header (r : Request) : Header := r.header
 def Request_RemoteAddr (r : Request) : Bytes := r.remoteAddr
 def Cookie_Value (c : Cookie) : Bytes := c.value
+def Cookie_setValue (c : Cookie) (v : Bytes) : Cookie := { c with value := v }
+/-- `(*http.Cookie).String()` of a cookie with a name and a value only -/
+def Cookie_String (c : Cookie) : Bytes := cookieString c.name c.value
+/-- `url.QueryEscape` -/
+def url_QueryEscape (s : Bytes) : Bytes := queryEscape s
 
 /-- the pairs of the query string grouped by key, as `url.Values` holds them: one entry per key (in order of first
 appearance — Go's map has no order), all the key's values in order -/
